@@ -57,7 +57,11 @@ def run(ctx):
             continue
         if res:
             kind, msg = res
-            ctx.violation(E.name, kind, msg, PL.case_replay(case, out), what=f"{E.name}: {msg}", tags=PL.case_tags(case))
+            tags = PL.case_tags(case)
+            ut_ = out.get("ut")
+            if ut_ is not None and np.asarray(ut_).ndim == 2 and np.isnan(np.asarray(ut_, dtype=float)).all(axis=1).any():
+                tags.add("all_nan_row")          # a utility row without any number: rand_argmax falls on position 0 (FourDs finding)
+            ctx.violation(E.name, kind, msg, PL.case_replay(case, out), what=f"{E.name}: {msg}", tags=tags)
             continue
         bcases.append(PL.encode_batch(case, out))
         bmeta.append((case, out))
